@@ -282,6 +282,9 @@ def value_dependencies(fn: ast.AST, e: ast.expr, depth: int = 0) -> Set[str]:
             else:
                 out.add(f"self.{n.attr}")
         if isinstance(n, ast.Name) and isinstance(n.ctx, ast.Load):
+            if n.id in ("self", "cls") and not isinstance(getattr(n, "_parent", None), ast.Attribute):
+                # the object handed on as a whole (Helper(self), f(self)): the value may depend on any of its state
+                out.add("self.*")
             if n.id in params:
                 out.add(n.id)
             elif depth < 4:
